@@ -457,3 +457,11 @@ impl Drop for RawPacketStream {
         }
     }
 }
+
+/// Verification door: number of echo requests still waiting for a reply
+#[cfg(feature = "verif")]
+impl IcmpForwarder {
+    pub(crate) fn verif_waiters(&self) -> usize {
+        self.shared.listeners.lock().unwrap().reply_waiters.len()
+    }
+}
